@@ -5,6 +5,7 @@
 import Rtp.Proofs.AV1PayStep
 namespace Rtp.Model.AV1
 open Rtp Rtp.Model Rtp.Spec.Av1Rtp
+open Rtp.Model.ObuLemmas
 
 /-- the OBUs Payload transmits for a scanned stream: the ones not dropped, size field removed -/
 def flushedOf (l : List (ObuHeader × Bytes)) : List Bytes :=
